@@ -14,14 +14,14 @@ from ..plrun import classify_exception
 MAX_VARS = {"quick": 12, "thorough": 16}
 
 
-def compile_case(src):
+def compile_case(src, **kw):
     from problog.program import PrologString
     from problog.formula import LogicFormula, LogicDAG
     from problog.cnf_formula import CNF
     from problog.ddnnf_formula import DDNNF
 
-    lf = LogicFormula.create_from(PrologString(src))
-    dag = LogicDAG.create_from(lf)
+    lf = LogicFormula.create_from(PrologString(src), **kw)
+    dag = LogicDAG.create_from(lf, **kw)
     cnf = CNF.create_from(dag)
     nnf = DDNNF.create_from(cnf)
     return cnf, nnf
@@ -99,7 +99,10 @@ def check_circuit(cnf, nnf, max_vars):
 def run_case(prog, tier):
     try:
         with watchdog(30):
-            cnf, nnf = compile_case(program_text(prog))
+            # programs that repeat a clause or a body literal are compiled with keep_duplicates (the
+            # documented option that lets repeated literals reach the CNF)
+            kw = {"keep_duplicates": True} if prog.get("keep_duplicates") else {}
+            cnf, nnf = compile_case(program_text(prog), **kw)
             return check_circuit(cnf, nnf, MAX_VARS[tier])
     except WatchdogTimeout:
         return None, "timeout", {}
@@ -121,8 +124,8 @@ class C10(Prop):
     rule = ("states = CNFs (one per generated program with evidence/queries); transitions = assignments enumerated; "
             "non-trivial = CNF with >= 3 variables that is not trivial; CNFs above the variable bound get structural "
             "checks only (counted as capped)")
-    families = {"quick": [("FT", 8), ("FC3", 32), ("F2.3", 48), ("F3.1", 16), ("F1.3s", 32), ("F2.2", 8), ("F1.1", 4)],
-                "thorough": [("FT", 8), ("FC3", 32), ("FC3g", 256), ("F3.2", 96), ("F2.4", 256), ("F2.3", 48), ("F1.2", 128), ("F1.3s", 32), ("F3.1", 16), ("F2.2", 8), ("F1.1", 4)]}
+    families = {"quick": [("F1.1dup", 4), ("FT", 8), ("FC3", 32), ("F2.3", 48), ("F3.1", 16), ("F1.3s", 32), ("F2.2", 8), ("F1.1", 4)],
+                "thorough": [("F1.1dup", 4), ("FT", 8), ("FC3", 32), ("FC3g", 256), ("F3.2", 96), ("F2.4", 256), ("F2.3", 48), ("F1.2", 128), ("F1.3s", 32), ("F3.1", 16), ("F2.2", 8), ("F1.1", 4)]}
     budget = {"quick": 300, "thorough": 2400}
 
     def shards(self, tier):
@@ -130,7 +133,8 @@ class C10(Prop):
 
     def run_shard(self, shard, tier, acc):
         fam, mod, rem = shard
-        for idx, prog in streams.shard_stream(fam, tier, mod, rem):
+        for idx, prog0 in streams.shard_stream(fam, tier, mod, rem):
+          for prog in ([prog0, dict(prog0, keep_duplicates=True)] if fam == "F1.1dup" else [prog0]):
             if acc.expired():
                 acc.cap("wall budget reached in family %s" % fam)
                 break
